@@ -464,6 +464,9 @@ class Cluster:
         if rng.random() < 0.25:
             data = PM.rich_payload(tok)
             self.ctx.count('emits_with_class_valued_payload')
+        elif rng.random() < 0.15:
+            data = {'t': tok, 'b': [bytes([tok % 256]), b'\x00\x01']}
+            self.ctx.count('emits_with_binary_payload')
         # the application's next statement after the emit changes who is in
         # the addressed room (same coroutine, nothing awaited in between): a
         # single server has delivered by then
